@@ -5,7 +5,7 @@ SPEC = {
     "required_theorems": ["views_canonical", "views_keys_complete", "views_invariant_of_collect", "views_order",
                           "views_plutus_order", "v1_entry_quirk", "views_single_item", "hash_formula", "no_hash_iff", "build_keeps_inputs",
                           "datum_only_has_empty_views", "ws_hash_formula", "txbuilder_hash_formula"],
-    "streams": [{"name": "scriptdata", "quick": 400, "thorough": 12000}],
+    "streams": [{"name": "scriptdata", "quick": 1000, "thorough": 20000}],
     "rule": "5 real transactions (witness set bytes + on-chain script_data_hash), the 8 subsets of {V1,V2,V3}, then per case: a language "
             "view map (60% subsets of {0,1,2}, else ids from {0,1,2,3,4,22,23,24,25,100,254,255}; cost vectors of 0,1,23,24,166,255..257 or "
             "0..11 coefficients incl. negative, > 2^32, i64::MIN/MAX), redeemers as list or map (0..3 entries, PlutusData depth 0..2, edgy "
